@@ -26,16 +26,25 @@
    once all bytes were fed and enough space is provided is proved per frame at loop level,
    [C02_stream_integrity_flat], not for call histories.)
 
-   What is modelled and compared but NOT proved (hence "partial" overall): the ring mechanics
-   of mpt_queue_recv / mpt_queue_shift (prefix space after MissingBuffer, cropping) around the
-   decoder calls.  They are
+   Ring level, reader side ([dqueue_recv] = mpt_queue_recv: decoder call on the ring's fragments,
+   result stored back, mpt_queue_shift of the consumed prefix; [dqueue_message] = mpt_message_get):
+   every history of wire-ins and receives on a ring of any capacity and offset delivers, in
+   order, the reference decodings of the frames at the front of the accepted bytes
+   ([C02_ring_reader_delivers_partial]) and, composed with the writer, a prefix of the sent
+   messages ([C02_ring_to_ring_partial]).  PARTIAL: the history ends for these two theorems when
+   the decoder reports an error; that includes MissingBuffer, i.e. the recovery path of
+   mpt_queue_recv (prefix space by mpt_qpre, chunked move of the decoded bytes), which ZPE
+   framings reach whenever a zero pair arrives with less than two bytes of gap.
+
+   What is modelled and compared but NOT proved (hence "partial" overall): that recovery path.
+   It is
    decided against the specification [sspec_run] — received = sent, in order, nothing lost,
    duplicated or merged, and everything arrives after a drain — by the correspondence run on
    rings of many capacities and offsets with arbitrary cuts of the wire. *)
 From MptV Require Import Base.Mem Cobs.CobsModel Cobs.DecModel Cobs.EncProofs Cobs.EncTheorems
   Cobs.DecProofs Cobs.DecComplete Cobs.StreamSpec Cobs.StreamProofs
   C13.QueueModel Cobs.QueueCodec Cobs.QueuePushProofs Cobs.QueuePushTheorem Cobs.WriterHistory
-  Cobs.DecCall Cobs.DecHistory Cobs.EndToEnd.
+  Cobs.DecCall Cobs.DecHistory Cobs.ReaderHistory Cobs.EndToEnd.
 
 Theorem C02_wire_splits_into_frames :
   forall v ms wire, frames_of v ms wire ->
@@ -98,6 +107,30 @@ Theorem C02_stream_end_to_end :
       hs_msgs rs = firstn (length (hs_msgs rs)) (wh_done ws).
 Proof. exact stream_end_to_end. Qed.
 
+(* reader ring: full statement would not stop at a decoder error (see the header) *)
+Theorem C02_ring_reader_delivers_partial :
+  forall v buf off ops, off <= length buf ->
+    let s := rh_run v (rh_init buf off) ops in
+    exists C rest, rh_in s = C ++ rest /\ frames_of v (rh_msgs s) C.
+Proof. exact reader_history_delivers. Qed.
+
+Theorem C02_ring_to_ring_partial :
+  forall v wbuf woff wops ws, variant_ok v -> woff < length wbuf ->
+    wh_run v (wh_init wbuf woff) wops = Some ws -> wh_cur ws = [] -> escr (eq_st (wh_e ws)) = 0 ->
+    forall rbuf roff rops n, roff <= length rbuf ->
+      let rs := rh_run v (rh_init rbuf roff) rops in
+      rh_in rs = firstn n (wh_sent ws ++ contents (eq_q (wh_e ws))) ->
+      rh_msgs rs = firstn (length (rh_msgs rs)) (wh_done ws).
+Proof. exact ring_to_ring. Qed.
+
+(* non-vacuity: an 8-byte reader ring starting at offset 5 (data wraps, consumed prefixes are
+   shifted out), three frames arriving in three pieces; the history does not stop *)
+Example C02_ring_reader_example :
+  let s := rh_run v_cobs (rh_init (repeat 238%N 8) 5)
+             [RWire [3;1;2]%N; RRecv; RWire [2;3;0;2]%N; RRecv; RRecv; RWire [7;0;1;0]%N; RRecv; RRecv; RRecv; RRecv] in
+  rh_stop s = false /\ rh_msgs s = [[1;2;0;3]; [7]; []]%N /\ rh_in s = [3;1;2;2;3;0;2;7;0;1;0]%N.
+Proof. vm_compute. auto. Qed.
+
 (* non-vacuity of the composition: the stream of the ring example below, fed in two pieces *)
 Example C02_end_to_end_example :
   let rs := hrun v_zpe_r (mkhs (dinit 4) [238;238;238;238; 3;1;2;3;0; 232;4]%N [] false)
@@ -138,3 +171,5 @@ Print Assumptions C02_ring_writer_invariant.
 Print Assumptions C02_ring_writer_total.
 Print Assumptions C02_ring_writer_stream.
 Print Assumptions C02_stream_end_to_end.
+Print Assumptions C02_ring_reader_delivers_partial.
+Print Assumptions C02_ring_to_ring_partial.
